@@ -55,6 +55,10 @@ CRASH_SCEN = {
     11: ([10, 20], O('setdefault', 1, 11)),
     12: ([10, 20], O('popkeys', 1, 0, 2, 0)),
     13: ([10, 20], O('popitem')),
+    # the operating handle has cleared the archive once before (state a handle may keep across operations)
+    14: ([10, 20], dict(O('del', 1), preclear=True)),
+    15: ([10, 20], dict(O('clear'), preclear=True)),
+    16: ([10, 20], dict(O('set', 1, 11), preclear=True)),
 }
 
 
@@ -146,7 +150,7 @@ def run_op(backend, keys, init, op, wd, kill=None):
     returns (return code, result or None, strace calls)"""
     shutil.rmtree(wd, True)
     os.makedirs(wd)
-    spec = {'init': init, 'op': op, 'keys': keys}
+    spec = {'init': init, 'op': op, 'keys': keys, 'preclear': bool(op.get('preclear'))}
     w = subprocess.Popen([common.PY, '-m', 'harness.fs_worker', common.REPO, backend, wd, 'op', json.dumps(spec)],
                          stdin=subprocess.PIPE, stdout=subprocess.PIPE, stderr=subprocess.PIPE, text=True, env=worker_env(), cwd=wd)
     line = w.stdout.readline()
@@ -313,9 +317,13 @@ def check_C13(tier):
     plans = []
     for b in backends:
         keysets = ['str'] + (['tuple'] if b in ('dir', 'file', 'dir-fast', 'dir-compressed') and (thorough or b == 'dir') else [])
+        # 'big': values that span many pages of the database / many write() calls (a commit of several pages, a long copy)
+        keysets += ['big'] if b in ('sql-file', 'file', 'dir') and (thorough or b == 'sql-file') else []
         for keys in keysets:
             for sid, (init, op) in sorted(CRASH_SCEN.items()):
-                if not thorough and b not in ALL_BACKENDS[:3] and sid not in (2, 3, 7, 11):
+                if not thorough and b not in ALL_BACKENDS[:3] and sid not in (2, 3, 7, 11, 14):
+                    continue
+                if keys == 'big' and sid not in ((2, 6, 8) if thorough else (2, 8)):
                     continue
                 plans.append((b, keys, sid, init, op))
     t0 = time.time()
